@@ -29,6 +29,8 @@ def family (name : String) (seed idx : Nat) : Option Case :=
   | "all" => some (genItemCase cfgAll name seed idx)
   | "dump" => some (genItemCase cfgDump name seed idx)
   | "wild" => some (genItemCase cfgWild name seed idx)
+  | "strip" => some (genItemCase cfgStrip name seed idx)
+  | "impl" => some (genImplCase name seed idx)
   | _ => none
 
 def familyCount (name : String) : Option Nat :=
